@@ -323,6 +323,10 @@ class Connection(Stateful):
             return data_in, None, None
         try:
             byte_count, channel_id, frame_in = pamqp_frame.unmarshal(data_in)
+            if byte_count > len(data_in):
+                # Incomplete frame (e.g. a heartbeat frame that is still
+                # missing its frame end byte), wait for the rest.
+                return data_in, None, None
             return data_in[byte_count:], channel_id, frame_in
         except pamqp_exception.UnmarshalingException:
             pass
